@@ -81,13 +81,22 @@ def fixed_writelines(w): rep(w + "/cutplace/rowio.py", '            self._target
 def fixed_write_per_field(w): rep(w + "/cutplace/rowio.py", '            self._target_stream.write("".join(row_to_write))\n', "            for field_value in row_to_write:\n                self._target_stream.write(field_value)\n")
 def pad_stripped(w):
     rep(w + "/cutplace/validio.py", "            _, fixed_field_length = self._field_names_and_lengths[field_index]\n            # Anything but a string is left for the validation to reject.\n", "            # Pad the same text the field format has validated.\n            field_value = field_value.strip()\n            _, fixed_field_length = self._field_names_and_lengths[field_index]\n            # Anything but a string is left for the validation to reject.\n")
-GUARD = ("            if not self._has_reset_checks:\n                # A run without any row (for example ``validate(..., validate_until=0)``, where\n                # ``rows()`` never starts) must not see what the CID was used for before.\n                self._reset_checks()\n")
-CLOSE_BODY = ("            try:\n                for check_name in self.cid.check_names:\n                    self.cid.check_map[check_name].check_at_end(self.location)\n            finally:\n"
-              "                for check in self.cid.check_map.values():\n                    check.cleanup()\n")
+GUARD = ("                if not self._has_reset_checks:\n                    # A run without any row (for example ``validate(..., validate_until=0)``, where\n                    # ``rows()`` never starts) must not see what the CID was used for before.\n                    self._reset_checks()\n")
+VERDICTS = "                for check_name in self.cid.check_names:\n                    self.cid.check_map[check_name].check_at_end(self.location)\n"
+CLEANUP = "            finally:\n                for check in self.cid.check_map.values():\n                    check.cleanup()\n"
 def reset_after_the_verdicts(w):
-    rep(w + "/cutplace/validio.py", GUARD + CLOSE_BODY, CLOSE_BODY + GUARD.replace("must not see what the CID was used for before", "leaves nothing behind for the next user of the CID"))
+    rep(w + "/cutplace/validio.py", "            try:\n" + GUARD + VERDICTS, "            try:\n" + VERDICTS + GUARD.replace("must not see what the CID was used for before", "leaves nothing behind for the next user of the CID"))
 def close_without_finally(w):
-    rep(w + "/cutplace/validio.py", CLOSE_BODY, "            for check_name in self.cid.check_names:\n                self.cid.check_map[check_name].check_at_end(self.location)\n            for check in self.cid.check_map.values():\n                check.cleanup()\n")
+    rep(w + "/cutplace/validio.py", "            try:\n" + GUARD + VERDICTS + CLEANUP,
+        GUARD.replace("                ", "            ", 4).replace("            if not", "            if not") .replace("\n                    #", "\n                #").replace("\n                    self", "\n                self")
+        + "            for check_name in self.cid.check_names:\n                self.cid.check_map[check_name].check_at_end(self.location)\n            for check in self.cid.check_map.values():\n                check.cleanup()\n")
+def close_guard_dropped(w):
+    rep(w + "/cutplace/validio.py", GUARD, "")
+def close_guard_with_old_condition(w):
+    rep(w + "/cutplace/validio.py", "                if not self._has_reset_checks:\n                    # A run without any row", "                if not self._is_closed and not self._has_reset_checks:\n                    # A run without any row")
+def excel_text_cells_through_str(w, comment):
+    rep(w + "/cutplace/rowio.py", "    elif isinstance(cell.value, str):\n        result = cell.value\n    elif cell.value is None:", "    elif cell.value is None:")
+    rep(w + "/cutplace/rowio.py", "    else:\n        result = str(cell.value)\n        if (cell.ctype == xlrd.XL_CELL_NUMBER) and (result.endswith(\".0\")):\n", "    else:\n        # Note: str() leaves the value of text cells as it is.\n        result = str(cell.value)\n        if result.endswith(\".0\"):\n            # %s\n" % comment)
 def exit_closes_only_without_error(w):
     rep(w + "/cutplace/validio.py", "        try:\n            self.close()\n        except errors.CutplaceError:\n            if exc_type is None:\n                raise\n", "        if exc_type is None:\n            self.close()\n")
 
@@ -98,7 +107,9 @@ PLAN = {"C03-10": chars_on_stripped, "C03-2": chars_on_stripped, "C04-10": chars
         "C17-8": datetime_flags_first, "C18-7": excel_only_missing_is_unreadable,
         "C07-11": validate_without_reader_limit, "C08-1": writer_reset_only_delimited, "C08-9": writer_reset_before_delimited_only, "C14-2": writer_no_reset, "C08-4": reset_at_close_not_in_writer, "C08-8": writer_reset_at_first_data_row,
         "C09-11": advance_only_nonempty_rows, "C09-2": advance_only_nonempty_rows, "C09-5": advance_only_nonempty_rows, "C14-10": fixed_writelines, "C14-6": fixed_writelines, "C14-3": fixed_write_per_field, "C14-9": pad_stripped,
-        "C20-7": exit_closes_only_without_error, "C08-11": reset_after_the_verdicts, "C20-1": close_without_finally, "C20-5": close_without_finally}
+        "C20-7": exit_closes_only_without_error, "C08-11": reset_after_the_verdicts, "C20-1": close_without_finally, "C20-5": close_without_finally,
+        "C05-12": close_guard_dropped, "C08-12": close_guard_with_old_condition,
+        "C16-9": lambda w: excel_text_cells_through_str(w, "Whole numbers, including the ones computed by formulas."), "C17-9": lambda w: excel_text_cells_through_str(w, "Whole numbers are stored as float.")}
 
 def main(ids):
     head = subprocess.check_output(["git", "-C", "/repo", "rev-parse", "--short", "HEAD"], text=True).strip()
